@@ -591,7 +591,9 @@ func New(config ...Config) *App {
 		app.config.RequestMethods = DefaultMethods
 	}
 
+	// a Config taken from another app (app.Config()) still carries that app's parsed proxies: start from scratch
 	app.config.TrustProxyConfig.ips = make(map[string]struct{}, len(app.config.TrustProxyConfig.Proxies))
+	app.config.TrustProxyConfig.ranges = nil
 	for _, ipAddress := range app.config.TrustProxyConfig.Proxies {
 		app.handleTrustedProxy(ipAddress)
 	}
